@@ -19,6 +19,40 @@ def permuted_polygon(G, cyc, i):
     return ('G', pts)
 
 
+def measure_polygon(impl, Pyramid, G, cyc, D):
+    R = G.R
+    rev = R.random() < 0.3      # the public reverse=True form of the constructor: same point set, opposite normal, same measures
+    o = impl.ConvexPolygon(tuple(impl.Pt(p) for p in D[1]), reverse=True) if rev else impl.build(D)
+    if R.random() < 0.25:      # measures of an object that was moved in place (cached centre / plane must follow)
+        mv = tuple(F(R.randint(-9, 9)) for _ in range(3))
+        o.move(impl.Vc(mv))
+        cyc = [E.add(p, mv) for p in cyc]
+        D = ('G', [E.add(p, mv) for p in D[1]])
+    apex = G.pt(3)
+    obs = dict(length=impl.call(o.length), area=impl.call(o.area), rev=rev)
+    n_ = E.polygon_normal(cyc)
+    if E.dot(n_, E.sub(apex, cyc[0])) != 0:
+        py = Pyramid(o, impl.Pt(apex), direct_call=False)
+        obs.update(pheight=impl.call(py.height), pvolume=impl.call(py.volume), pvolume_fn=impl.call(impl.volume, py))
+    else:
+        apex = None
+    s0 = list(o.segments())[0]
+    obs['seglen'] = impl.call(s0.length)
+    obs['seg'] = impl.describe(s0)
+    return (D, apex, obs)
+
+
+def measure_body(impl, G, D):
+    R = G.R
+    o = impl.build(D)
+    if R.random() < 0.25:
+        mv = tuple(F(R.randint(-9, 9)) for _ in range(3))
+        o.move(impl.Vc(mv))
+        D = ('B', [[E.add(p, mv) for p in f] for f in D[1]])
+    obs = dict(length=impl.call(o.length), area=impl.call(o.area), volume=impl.call(o.volume), volume_fn=impl.call(impl.volume, o))
+    return (D, None, obs)
+
+
 def work(args):
     seed, n, idx = args
     from .. import impl
@@ -31,38 +65,21 @@ def work(args):
         if j % 3 == 0:
             cyc = G.polygon(3, 8)
             D = permuted_polygon(G, cyc, j // 3)
-            rev = R.random() < 0.3      # the public reverse=True form of the constructor: same point set, opposite normal, same measures
-            o = impl.ConvexPolygon(tuple(impl.Pt(p) for p in D[1]), reverse=True) if rev else impl.build(D)
-            if R.random() < 0.25:      # measures of an object that was moved in place (cached centre / plane must follow)
-                mv = tuple(F(R.randint(-9, 9)) for _ in range(3))
-                o.move(impl.Vc(mv))
-                cyc = [E.add(p, mv) for p in cyc]
-                D = ('G', [E.add(p, mv) for p in D[1]])
-            apex = G.pt(3)
-            obs = dict(length=impl.call(o.length), area=impl.call(o.area), rev=rev)
-            n_ = E.polygon_normal(cyc)
-            if E.dot(n_, E.sub(apex, cyc[0])) != 0:
-                py = Pyramid(o, impl.Pt(apex), direct_call=False)
-                obs.update(pheight=impl.call(py.height), pvolume=impl.call(py.volume), pvolume_fn=impl.call(impl.volume, py))
-            else:
-                apex = None
-            s0 = list(o.segments())[0]
-            obs['seglen'] = impl.call(s0.length)
-            obs['seg'] = impl.describe(s0)
-            out.append((D, apex, obs))
+            try:
+                out.append(measure_polygon(impl, Pyramid, G, cyc, D))
+            except Exception as e:      # the implementation raised on a valid shape: an observation, not a harness error
+                out.append((D, None, dict(raised=(type(e).__name__, str(e)[:120]))))
+            continue
         else:
             faces, bk = G.body() if j % 3 == 1 else (G.hull_body(4, 10), 'hull')
             if R.random() < 0.6:        # away from the origin (origin outside the body): nothing may depend on where the origin is
                 t = tuple(F(R.choice([-6, -5, 4, 5, 6])) if R.random() < 0.7 else F(0) for _ in range(3))
                 faces = [[E.add(p, t) for p in f] for f in faces]
             D = G.shuffled_body(faces)       # shuffles vertex order of each face (random orientation) and the face order
-            o = impl.build(D)
-            if R.random() < 0.25:
-                mv = tuple(F(R.randint(-9, 9)) for _ in range(3))
-                o.move(impl.Vc(mv))
-                D = ('B', [[E.add(p, mv) for p in f] for f in D[1]])
-            obs = dict(length=impl.call(o.length), area=impl.call(o.area), volume=impl.call(o.volume), volume_fn=impl.call(impl.volume, o))
-            out.append((D, None, obs))
+            try:
+                out.append(measure_body(impl, G, D))
+            except Exception as e:
+                out.append((D, None, dict(raised=(type(e).__name__, str(e)[:120]))))
     return out
 
 
@@ -84,6 +101,14 @@ def run(ctx, scale=1):
         ctx.count(key)
         t = ml.split()
         problems = []
+        if 'raised' in obs:
+            ok, why = admit.admitted([D], derive=False)
+            if not ok:
+                ctx.stats['rejected-by-admission: ' + why] += 1
+                continue
+            ctx.stats['DISAGREE'] += 1
+            ctx.violation(key, '%s: constructing / measuring this valid shape raises %s' % (tok(D)[:300], obs['raised']), dict(d=gen.jsonable(D), apex=None, rev=False))
+            continue
         if D[0] == 'G':
             lens, a4 = E.measures(D)
             ref_len = sum(math.sqrt(float(x)) for x in lens)
